@@ -79,7 +79,8 @@ def labels(n, seed, dup=False):
 
 
 def id_alphabet(seed):
-    return [[0, 1, 2], [5, 7, 9], [-1, 0, 3]][seed % 3]
+    # the first three ids are used by the small tables; the wide tables (nparent >= 3) use up to six
+    return [[0, 1, 2, 3, 4, 5], [5, 7, 9, 2, 11, 4], [-1, 0, 3, 8, -5, 6]][seed % 3]
 
 
 def _perm_menu(n, full_upto):
@@ -565,9 +566,9 @@ def axis_cases(tier, seed):
 # ============================================================================
 # outcross_shuffle
 class OutxHandler(Handler):
-    def __init__(self, ch, table, horizon, first_full_upto):
+    def __init__(self, ch, table, horizon, first_full_upto, few=False):
         super().__init__(ch)
-        self.table, self.horizon, self.first_full_upto = table, horizon, first_full_upto
+        self.table, self.horizon, self.first_full_upto, self.few = table, horizon, first_full_upto, few
         self.ncalls = 0
         self.states = []
 
@@ -583,6 +584,10 @@ class OutxHandler(Handler):
             return
         if self.ncalls == 1 and n <= self.first_full_upto:
             menu = list(itertools.permutations(range(n)))
+        elif self.few:
+            # wide tables: default order, reversal and three rotations of the exchange list
+            ident = tuple(range(n))
+            menu = [ident, ident[::-1]] + [ident[k:] + ident[:k] for k in (n // 4, n // 2, (3 * n) // 4) if 0 < k < n]
         else:
             ident = tuple(range(n))
             menu = [ident, ident[::-1]] + [(i,) + ident[:i] + ident[i + 1:] for i in range(1, n)]
@@ -598,7 +603,7 @@ def outx_case(ctx, cs, answers=None):
 
     def run(ch):
         tab = tab0.copy()
-        h = OutxHandler(ch, tab, score0 + 1, cs["first_full_upto"])
+        h = OutxHandler(ch, tab, score0 + 1, cs["first_full_upto"], few=cs.get("menu") == "few")
         rng = _mkrng(h, cs["rng"])
         try:
             ret = fn(tab, rng)
@@ -607,10 +612,12 @@ def outx_case(ctx, cs, answers=None):
             ret, exc = None, ex
         return tab, ret, exc, h
 
+    npass_max = [0]
     for ch, (tab, ret, exc, h) in _drive(run, answers, bound=cs["bound"], first_full=cs.get("first_full", 1), max_exec=300000):
         ctx.evaluations += 1
         ctx.transitions += max(h.ncalls, 1)
         case = dict(cs, answers=_trim(ch.taken))
+        npass_max[0] = max(npass_max[0], h.ncalls)
         ok = ctx.guard(lambda: outx_oracle(cs, tab0, score0, tab, ret, exc, h), case=case, sig_prefix=OUT)
         if ok:
             ctx.traces += 1
@@ -631,6 +638,11 @@ def outx_case(ctx, cs, answers=None):
     ctx.flag("outx:shape:" + ("square" if nr == nc else "ncross>nparent" if nr > nc else "ncross<nparent"))
     if (nr, nc) in ((4, 2), (2, 4)):
         ctx.count(f"outx:tables-{nr}x{nc}")
+    if cs.get("menu") == "few":
+        ctx.count("outx:wide-tables")
+        ctx.flag(f"outx:wide:{nr}x{nc}")
+        if npass_max[0] > nr + 1:
+            ctx.flag("outx:wide:more-passes-than-ncross+1")
 
 
 def outx_oracle(cs, tab0, score0, tab, ret, exc, h):
@@ -677,6 +689,31 @@ def _depth(flat, c):
             best = max(best, 1 + _depth(tuple(f), c))
         _DEPTH[key] = best
     return _DEPTH[key]
+
+
+def wide_tables():
+    """Covering family for shapes 3x4, 3x6, 4x4, 2x6 over k = 2,3,4,6 ids: constant crosses, crosses drawing on two
+    individuals ([a,a,a,a,b,b], [a,a,a,b,b,b]), sorted fills with equal / unequal counts, identical crosses, one id only."""
+    out = []
+    for (r, c) in ((3, 4), (3, 6), (4, 4), (2, 6)):
+        fam = []
+        for k in (2, 3, 4, 6):
+            fam.append([[i % k] * c for i in range(r)])                                         # constant crosses
+            fam.append([[i % k] * (c - 2) + [(i + 1) % k] * 2 for i in range(r)])               # a..a b b
+            fam.append([[i % k] * (c // 2) + [(i + 1) % k] * (c - c // 2) for i in range(r)])   # a a a b b b
+            fam.append([[(2 * i) % k] * (c // 2) + [(2 * i + 1) % k] * (c - c // 2) for i in range(r)])
+            flat = sorted(j % k for j in range(r * c))
+            fam.append([flat[i * c:(i + 1) * c] for i in range(r)])                             # sorted fill, equal counts
+            fam.append([[j % k for j in range(c)] for _ in range(r)])                           # identical crosses
+        flat = [0] * ((3 * r * c) // 4) + [1] * (r * c - (3 * r * c) // 4)
+        fam.append([flat[i * c:(i + 1) * c] for i in range(r)])                                 # two ids, 3:1
+        flat = sorted([0] * (r * c // 2) + [j % 5 + 1 for j in range(r * c - r * c // 2)])
+        fam.append([flat[i * c:(i + 1) * c] for i in range(r)])                                 # one frequent id + five rare
+        fam.append([[0] * c for _ in range(r)])                                                 # one id only
+        for t in fam:
+            if t not in out:
+                out.append(t)
+    return out
 
 
 def outx_cases(tier, seed):
@@ -726,6 +763,12 @@ def outx_cases(tier, seed):
                 bound, ff, cost = 0, 0, 3
             out.append(dict(part="outx", table=table, dtype="int64", rng="Generator", seed=seed, bound=bound,
                             first_full=ff, first_full_upto=0, _cost=cost * 28 * 2))
+    # wide tables (nparent >= 3, 12-18 entries, heavy duplication: many improving passes are needed): a covering family
+    # under the default answers plus <= 1 deviation (reversal / three rotations of the exchange list at one pass), all seeds
+    for table in wide_tables():
+        ne = len(table) * len(table[0])
+        out.append(dict(part="outx", table=table, dtype="int64", rng="Generator", seed=seed, bound=1, first_full=0,
+                        first_full_upto=0, menu="few", _cost=ne * ne * 60))
     # RandomState and another integer dtype on a few tables
     for table in ([[0, 0], [1, 1]], [[0, 0, 1], [1, 2, 2]], [[0, 1], [0, 1], [2, 2]]):
         out.append(dict(part="outx", table=table, dtype="int32", rng="RandomState", seed=seed, bound=1,
@@ -778,7 +821,7 @@ def run_shard(spec, ctx):
     T = ctx.tier == "thorough"
     ctx.bounds.update({"sus_weights_len_max": 5 if T else 4, "sus_k_max": 8 if T else 6,
                        "tiled_options_max": 5 if T else 4, "tiled_size_max": 10 if T else 9,
-                       "axis_shape_max": [3, 3, 2], "outx_entries_max": 6, "outx_entries_4x2_2x4": 8, "outx_ids": 3,
+                       "axis_shape_max": [3, 3, 2], "outx_entries_max": 6, "outx_entries_4x2_2x4": 8, "outx_wide_family": "3x4,3x6,4x4,2x6 over 2-6 ids, default answers + <=1 deviation", "outx_ids": 3,
                        "outx_later_pass_deviation_bound_5_6_entries": None if T else 1,
                        "outx_tables_5_6_entries": "all 3^n" if T else "one per id-relabelling class",
                        "axis_deviation_bound_when_over_3000_executions": None if T else 3})
@@ -800,7 +843,8 @@ def finalize(ctx, tier, seed):
     for zone in ("edge", "interior"):
         assert c.get(f"sus:answers:zone:{zone}", 0) > 0, zone
     for f in ("axis:int-form", "axis:ndim3:naxes2", "axis:ndim2:naxes1", "axis:ndim1:naxes0", "tiled:remainder", "outx:shape:square",
-              "outx:shape:ncross>nparent", "outx:shape:ncross<nparent",
+              "outx:shape:ncross>nparent", "outx:shape:ncross<nparent", "outx:wide:3x4", "outx:wide:3x6", "outx:wide:4x4", "outx:wide:2x6",
+              "outx:wide:more-passes-than-ncross+1",
               "tiled:two-whole-tiles", "tiled:no-whole-tile"):
         assert f in ctx.flags, f
     # the guards below say "a clean verdict is not vacuous"; they depend on executions that passed the oracle, so they
